@@ -88,6 +88,8 @@ class BCEngine(Engine):
         self.closed = False
         self.closed_real = False  # close() really called (possibly from inside a response callback, before the model learns of it)
         self.reentrant_close_error = None
+        self.sibling_cancel_error = None
+        self.close_error = None
         self.close_watch = None
         self.close_expected = False
         self.seen_attempts = 0
@@ -98,6 +100,8 @@ class BCEngine(Engine):
         self.rx = {}  # conn cid -> bytearray of delivered-but-unparsed bytes (model's own reassembly)
         self.rx_dead = set()
         self.unknown_id = 2 ** 30
+        self.script = []
+        self.late_reply_this_step = False
         self.nt = set()
         self.drops = 0
 
@@ -105,6 +109,27 @@ class BCEngine(Engine):
     def draw_step(self, draw):
         w = self.world
         ops = []
+        if self.script:
+            return self.script.pop(0)
+        if not self.closed and draw(st.integers(0, 7)) == 0:
+            # script 'coalesced': three requests answered in any order, the answers handed to the client in one or two chunks; the first
+            # request's callback may close the client from inside the delivery (then the rest of that chunk arrives after the close)
+            perm = draw(st.permutations([0, 1, 2]))
+            n0 = sum(1 for r in self.reqs if r.state == "out")
+            self.script = [["req", True, draw(st.booleans())], ["req", True, False], ["req", True, False], ["run", 8],
+                           ["reply", n0 + perm[0], 0], ["reply", n0 + perm[1], draw(st.integers(0, 3))], ["merge"], ["reply", n0 + perm[2], 0]]
+            if draw(st.booleans()):
+                self.script.append(["merge"])
+            self.script.append(["run", 8])
+            self.labels.add("script:coalesced")
+            return self.script.pop(0)
+        if not self.closed and draw(st.integers(0, 11)) == 0:
+            # script 'latereply': a request is written, given up by its owner (cancelled, as at a timeout), its id is used again while the
+            # reply is still outstanding, then the reply to the first one arrives
+            n0 = sum(1 for r in self.reqs if r.state == "out")
+            self.script = [["req", True, False], ["run", 8], ["cancel", n0, 0], ["reusetomb", 0, 0], ["run", 4], ["reply", n0, draw(st.integers(0, 3))], ["run", 6]]
+            self.labels.add("script:latereply")
+            return self.script.pop(0)
         evs = w.pending()
         if not self.closed:
             ops += ["req", "req", "req"]
@@ -124,6 +149,8 @@ class BCEngine(Engine):
             ops += ["reply", "reply", "reply", "replyany", "unk", "drop"]
             if srv.s2c:
                 ops += ["chunk", "chunk", "cdrop"]
+            if len(srv.s2c) >= 2:
+                ops += ["merge", "merge", "merge"]
             if not self.closed:
                 ops += ["badlen"]
         if evs:
@@ -136,7 +163,8 @@ class BCEngine(Engine):
             return None
         op = draw(st.sampled_from(ops))
         if op == "req":
-            return ["req", draw(st.sampled_from([True, True, True, False])), draw(st.integers(0, 11)) == 0]
+            k = draw(st.integers(0, 11))
+            return ["req", draw(st.sampled_from([True, True, True, False])), True if k == 0 else 2 if k == 1 else False]
         if op in ("cancel", "dup", "reuse", "reusetomb", "reply", "replyany"):
             return [op, draw(st.integers(0, 30)), draw(st.integers(0, 12))]
         if op == "conn":
@@ -200,6 +228,7 @@ class BCEngine(Engine):
         op = step[0]
         self.exp_writes = []
         self.exp_attempts = []
+        self.late_reply_this_step = False
         if op == "updown":
             self.peer.up = not self.peer.up
             return
@@ -255,8 +284,32 @@ class BCEngine(Engine):
                 r.state = "rejected"
                 return
             r.watch = simnet.Watch(d, w, "req%d" % r.idx)
+            if op == "req" and len(step) > 2 and step[2] == 2 and expect:
+                # "if one fails, give up the others": the owner's errback cancels another request that is still pending - also when the
+                # failure comes from close(), which is then in the middle of failing the pending requests
+                self.labels.add("errback-cancels-sibling-armed")
+
+                def _cancel_other(fail, r=r):
+                    others = [x for x in self.reqs if x is not r and x.watch is not None and x.watch.state == "pending" and x.state in ("out", "closed")]
+                    if others:
+                        y = others[0]
+                        if y.state == "out":
+                            y.state = "cancelled"
+                            if self.cur is not None and y.sent_conn == self.cur.cid:
+                                y.tomb = True
+                        else:
+                            y.state = "closed-or-cancelled"  # close() fails the pending requests "at once": either outcome is right
+                        self.labels.add("errback-cancelled-sibling")
+                        self.nt.add("errback-cancelled-sibling")
+                        try:
+                            y.watch.d.cancel()
+                        except Exception as e:  # noqa
+                            self.sibling_cancel_error = (r.idx, y.idx, e)
+                    return fail
+
+                d.addErrback(_cancel_other)
             r.watch.silence()
-            if op == "req" and len(step) > 2 and step[2] and expect:
+            if op == "req" and len(step) > 2 and step[2] is True and expect:
                 # the owner's callback closes the broker client from inside the response delivery (KafkaClient does so when a metadata
                 # response drops the answering broker): the request is complete, everything else pending fails, nothing is left half-done
                 r.cbclose = True
@@ -271,7 +324,8 @@ class BCEngine(Engine):
                             r.value = res
                         self.labels.add("closed-from-response-callback")
                         self.nt.add("closed-from-response-callback")
-                        self._model_close()
+                        if not self.closed:
+                            self._model_close()
                         try:
                             d2 = self.bc.close()
                             self.close_watch = simnet.Watch(d2, w, "close")
@@ -363,6 +417,10 @@ class BCEngine(Engine):
             c = self._server_conn()
             if c is not None and w.split_head(c, step[1]):
                 self.labels.add("split-frame")
+        elif op == "merge":
+            c = self._server_conn()
+            if c is not None and w.merge_head(c):
+                self.labels.add("coalesced-frames")
         elif op == "cdrop":
             # deliver only the first part of the next frame, then the network drops the connection (drop inside a frame)
             c = self._server_conn()
@@ -397,7 +455,11 @@ class BCEngine(Engine):
                 return
             self.closed_real = True
             self._model_close()
-            d = self.bc.close()
+            try:
+                d = self.bc.close()
+            except Exception as e:  # noqa
+                self.close_error = e
+                return
             self.close_watch = simnet.Watch(d, w, "close")
             self.close_watch.silence()
         elif op == "timer":
@@ -454,8 +516,10 @@ class BCEngine(Engine):
         elif ev.kind == "dlv":
             c = ev.conn
             chunk = c.s2c[0] if c.s2c else b""
-            w.process(ev)
+            # the model reads the chunk first, frame by frame: a response callback that closes the client (inside w.process) does so
+            # between two frames of a coalesced chunk, and the frames before it have already had their effect
             self._model_rx(c, chunk)
+            w.process(ev)
         elif ev.kind == "lost":
             c = ev.conn
             w.process(ev)
@@ -485,6 +549,8 @@ class BCEngine(Engine):
     def _model_close(self):
         """what close() means for the model (the caller performs the real close())"""
         self.closed = True
+        if any(r.state == "out" for r in self.reqs):
+            self.nt.add("closed-with-pending")
         for r in self.reqs:
             if r.state == "out":
                 r.state = "closed"
@@ -521,6 +587,8 @@ class BCEngine(Engine):
             if hit:
                 hit[0].state = "ok"
                 hit[0].value = payload
+                if getattr(hit[0], "cbclose", False) and not self.closed:
+                    self._model_close()  # its callback closes the client before the next frame of this chunk is looked at
 
                 if sum(1 for r in self.reqs if r.state == "out") >= 1:
                     self.labels.add("answer-with-others-outstanding")
@@ -530,6 +598,7 @@ class BCEngine(Engine):
             elif tomb:
                 tomb[0].tomb = False
                 self.nt.add("late-reply-to-cancelled")
+                self.late_reply_this_step = True
             else:
                 self.labels.add("frame-for-nobody")
 
@@ -540,6 +609,12 @@ class BCEngine(Engine):
         from afkak.common import ClientError
 
         w = self.world
+        if self.close_error is not None:
+            e, self.close_error = self.close_error, None
+            self._note_close("C20.pending-fail-at-once", "C20.broker-close-raised/%s" % type(e).__name__, "C10.close", "C10.close-raised/%s" % type(e).__name__, "step %r: close() raised %r" % (step, e))
+        if self.sibling_cancel_error is not None:
+            (i, j, e), self.sibling_cancel_error = self.sibling_cancel_error, None
+            self.note("C06.failure-kinds", "C06.cancel-raised/%s" % type(e).__name__, "cancelling request #%d from the errback of request #%d raised %r" % (j, i, e))
         if self.reentrant_close_error is not None:
             idx, e = self.reentrant_close_error
             self.reentrant_close_error = None
@@ -590,6 +665,9 @@ class BCEngine(Engine):
                 self.note("C06.exactly-once", "C06.second-fire-attempt", "request #%d (id %d): Deferred fired again: %r" % (r.idx, r.cid, wt.extra_attempts))
             if r.state == "out":
                 if wt.state != "pending":
+                    if getattr(self, "late_reply_this_step", False):
+                        # the owner cancels a request when its timeout expires: the reply that then still arrives is C11's "late reply"
+                        self.note("C11.late-reply-harmless", "C11.late-reply-completed-another-request", "step %r delivered the reply to a request cancelled earlier (timed out); request #%d (id %d), still unanswered, fired with %.200r" % (step, r.idx, r.cid, wt.value))
                     self.note("C06.completes-with-own-response", "C06.fired-unexpectedly/%s" % wt.state,
                               "step %r: request #%d (id %d) is unanswered but its Deferred fired with %.200r" % (step, r.idx, r.cid, wt.value))
             elif r.state == "ok":
@@ -600,18 +678,21 @@ class BCEngine(Engine):
             elif r.state == "cancelled":
                 if wt.state != "err" or not wt.value.check(CancelledError):
                     self.note("C06.failure-kinds", "C06.cancelled-outcome", "request #%d cancelled but Deferred is %s %.200r" % (r.idx, wt.state, wt.value))
+            elif r.state == "closed-or-cancelled":
+                if wt.state != "err" or not wt.value.check(ClientError, CancelledError):
+                    self._note_close("C20.pending-fail-at-once", "C20.broker-pending-not-failed", "C10.close-fails-pending", "C10.close-fails-pending", "request #%d pending at close() and cancelled from a sibling's errback: Deferred is %s %.200r" % (r.idx, wt.state, wt.value))
             elif r.state == "closed":
                 if wt.state != "err" or not wt.value.check(ClientError):
-                    self.note("C10.close-fails-pending", "C10.close-fails-pending", "request #%d pending at close(): Deferred is %s %.200r" % (r.idx, wt.state, wt.value))
+                    self._note_close("C20.pending-fail-at-once", "C20.broker-pending-not-failed", "C10.close-fails-pending", "C10.close-fails-pending", "request #%d pending at close(): Deferred is %s %.200r" % (r.idx, wt.state, wt.value))
         # 5. close Deferred
         if self.close_watch is not None:
             cw = self.close_watch
             if cw.extra_attempts:
-                self.note("C10.close", "C10.close-fired-twice", "close() Deferred fired again %r" % cw.extra_attempts)
+                self._note_close("C20.close-fires-once", "C20.broker-close-fired-twice", "C10.close", "C10.close-fired-twice", "close() Deferred fired again %r" % cw.extra_attempts)
             if self.close_expected and cw.state == "pending":
-                self.note("C10.close", "C10.close-not-fired", "step %r: connection gone / attempt cancelled but close() Deferred has not fired" % (step,))
+                self._note_close("C20.close-fires-after-last", "C20.broker-close-not-fired", "C10.close", "C10.close-not-fired", "step %r: connection gone / attempt cancelled but close() Deferred has not fired" % (step,))
             if not self.close_expected and cw.state != "pending":
-                self.note("C10.close", "C10.close-fired-early", "step %r: close() Deferred fired while connection %r is still open" % (step, self.cur))
+                self._note_close("C20.close-fires-after-last", "C20.broker-close-fired-early", "C10.close", "C10.close-fired-early", "step %r: close() Deferred fired while connection %r is still open" % (step, self.cur))
 
     def finish(self):
         w = self.world
@@ -624,7 +705,7 @@ class BCEngine(Engine):
             if r.watch is not None and r.watch.state == "pending":
                 self.note("C06.exactly-once", "C06.never-fired", "request #%d (id %d, model state %s) never completed, even after close()" % (r.idx, r.cid, r.state))
         if w.forbidden:
-            self.note("C10.close", "C10.activity-after-close", repr(w.forbidden[:3]))
+            self._note_close("C20.quiet-after-close", "C20.broker-activity-after-close", "C10.close", "C10.activity-after-close", repr(w.forbidden[:3]))
         out = sum(1 for r in self.reqs if r.watch is not None)
         self.obs = {"requests": out, "connections": len(w.conns), "attempts": len(w.attempt_log), "drops": self.drops, "labels": sorted(self.labels | self.nt)}
 
@@ -632,6 +713,12 @@ class BCEngine(Engine):
         self.do(step)
         self.check(step)
         self.raise_noted()
+
+    def _note_close(self, c20_clause, c20_sig, c10_clause, c10_sig, detail):
+        """the broker client's close() is the mechanism of both C10's last sentence and C20 ('broker client close: drop connection or
+        cancel attempt, fail pending requests')"""
+        self.note(c20_clause, c20_sig, detail)
+        self.note(c10_clause, c10_sig, detail)
 
     def nontrivial(self):
         return bool(self.nt)
